@@ -5,6 +5,7 @@ from .common import *
 Q = 'cadence::sinks::queuing::QueuingMetricSink'
 QB = 'cadence::sinks::queuing::QueuingMetricSinkBuilder'
 SINK_TRAIT = 'cadence::sinks::core::MetricSink'
+SPAWN_CALLS = ('std::thread::functions::spawn', 'std::thread::builder::Builder::spawn', 'std::thread::spawn', 'std::thread::Builder::spawn')
 DROP_TRAIT = 'core::ops::drop::Drop'
 CLONE_TRAIT = 'core::clone::Clone'
 SENDER = 'crossbeam_channel::channel::Sender<'
@@ -81,7 +82,7 @@ class QModel:
         self.wmethods = wm
         # spawn function: the fn calling thread::spawn ; the worker loop is the worker method its closure calls
         self.spawn = [b for b in cad.all_bodies if b.def_kind in ('Fn', 'AssocFn') and in_module_of(b, Q) and not b.path.endswith('::tests') and '::tests::' not in b.path
-                      and any(callee_is(t, 'std::thread::functions::spawn', 'std::thread::builder::Builder::spawn')
+                      and any(callee_is(t, *SPAWN_CALLS)
                               for _, t in b.calls())]
         wpaths = set(b.path for b in wm)
         self.run = []
@@ -168,7 +169,7 @@ class QModel:
             self.build = inl(cad, self.build0, never=lambda x: x.path in keep_)
         except Exception:
             self.build = self.build0
-        sc = self._closure_args(self.spawn, lambda t: callee_is(t, 'std::thread::spawn', 'std::thread::Builder::spawn', 'std::thread::Builder::spawn_scoped'))
+        sc = self._closure_args(self.spawn, lambda t: callee_is(t, *SPAWN_CALLS))
         if len(sc) != 1:
             sc = cad.closures_of(self.spawn.path)
         wnew = [x.path for x in names(cad).constructors(self.worker)]
